@@ -284,10 +284,10 @@ End Table.
 Definition fl_on : flags := {| g_on := true; g_ba := false; g_dl := false; g_cx := false |}.
 Definition fl_none : flags := {| g_on := false; g_ba := false; g_dl := false; g_cx := false |}.
 Definition fld (n: string) : fplan :=
-  {| p_name := n; p_alias := None; p_tynull := true; p_trivial := true; p_default := DVal PNone; p_omit := false |}.
+  {| p_name := n; p_alias := None; p_ty := TyOptional; p_trivial := true; p_default := DVal PNone; p_omit := false |}.
 Definition d8b_ct : list cls :=
   [ {| c_mixin := true; c_cfgd := None; c_cfg := ns_unset; c_sort := false; c_flags := fl_on;      (* 0: Outer(u: Union[A, B]) *)
-       c_fields := [({| p_name := "u"; p_alias := None; p_tynull := false; p_trivial := false; p_default := DNo; p_omit := false |}, [1; 2])] |};
+       c_fields := [({| p_name := "u"; p_alias := None; p_ty := TyPlain; p_trivial := false; p_default := DNo; p_omit := false |}, [1; 2])] |};
     {| c_mixin := true; c_cfgd := None; c_cfg := ns_unset; c_sort := false; c_flags := fl_none; c_fields := [(fld "a", [])] |};   (* 1: A *)
     {| c_mixin := true; c_cfgd := None; c_cfg := ns_unset; c_sort := false; c_flags := fl_on; c_fields := [(fld "b", [])] |} ]%nat.  (* 2: B *)
 Definition d8b_inst : node := NObj 0 [NObj 2 [NLeaf PNone PNone]].
